@@ -165,6 +165,24 @@ pub fn read_journal(path: &str) -> Option<(usize, Vec<u8>)> {
     Some((ph as usize, d[16..16 + n as usize].to_vec()))
 }
 
+/// Pack file of tapes: repeated [u32 LE length][bytes]
+pub fn read_pack(path: &str) -> Vec<Vec<u8>> {
+    let mut v = Vec::new();
+    if let Ok(d) = std::fs::read(path) {
+        let mut i = 0usize;
+        while i + 4 <= d.len() {
+            let n = u32::from_le_bytes(d[i..i + 4].try_into().unwrap()) as usize;
+            i += 4;
+            if i + n > d.len() {
+                break;
+            }
+            v.push(d[i..i + n].to_vec());
+            i += n;
+        }
+    }
+    v
+}
+
 /// Replay file format: b"VREPLAY <id> <phase>\n" + raw tape bytes
 pub fn write_replay(path: &str, id: &str, phase: usize, tape: &[u8]) {
     let mut f = std::fs::File::create(path).expect("replay file");
@@ -223,6 +241,32 @@ pub fn run_property(prop: &Property, ctx: &mut Ctx, journal: &Journal, only_phas
                     ..Config::default()
                 };
                 let mut runner = TestRunner::new(cfg);
+                // corpus tier: tapes found by the coverage-guided campaigns (committed pack file
+                // $VERIF_CORPUS/<ID>.tapes), split over the workers, executed through the same oracle first
+                let mut corpus_n = 0u64;
+                if let Ok(dir) = std::env::var("VERIF_CORPUS") {
+                    for (i, tape) in read_pack(&format!("{}/{}.tapes", dir, prop.id)).into_iter().enumerate() {
+                        if i % ctx.nworkers != ctx.worker {
+                            continue;
+                        }
+                        let tape = &tape[..tape.len().min(*max_tape)];
+                        journal.record(pi, tape);
+                        let o = f(tape, ctx);
+                        if let Some(m) = &o.internal {
+                            internal_error(m);
+                        }
+                        let mut o = ctx.settle(o);
+                        corpus_n += 1;
+                        if let Some(fl) = o.fail.take() {
+                            failure = Some((pi, tape.to_vec(), Fail { sig: fl.sig, msg: format!("[corpus tape] {}", fl.msg) }));
+                            break;
+                        }
+                        stats.absorb(&mut o);
+                    }
+                }
+                if failure.is_some() {
+                    break;
+                }
                 let st = RefCell::new(std::mem::take(&mut stats));
                 let failed = RefCell::new(false);
                 let max_tape = *max_tape;
@@ -270,6 +314,7 @@ pub fn run_property(prop: &Property, ctx: &mut Ctx, journal: &Journal, only_phas
                         .set("phase", J::s(*name))
                         .set("kind", J::s("proptest"))
                         .set("cases_requested_this_worker", J::U(per as u64))
+                        .set("corpus_tapes_this_worker", J::U(corpus_n))
                         .set("wall_s", J::F(t0.elapsed().as_secs_f64())),
                 );
             }
